@@ -155,6 +155,7 @@ struct Obj {
 
   // Global variable
   bool is_tentative;
+  Obj *enclosing_fn; // for a static local variable
   bool is_tls;
   char *init_data;
   Relocation *rel;
